@@ -166,7 +166,14 @@ def random_spec(rng, quick, trial_flip=False, odd_options=False):
     if r < 0.35:  # report_start > 0: on the hydraulic grid, off it, exactly the duration, beyond the duration (empty tables)
         d = o["duration"]
         spec["c16_report_start"] = rng.choice([hyd, hyd * rng.randint(1, 3), hyd // 2, hyd + 7, d, d + hyd, d + 1, 2 * d + 5])
-    if not odd_options and o["duration"] >= hyd and rng.random() < 0.3:
+    if not odd_options and not trial_flip and rng.random() < 0.2:
+        # the same simulator object for two run_sim calls, time options edited in between
+        h1 = rng.choice([hyd // 2, hyd * 2, hyd])
+        spec["c16_reuse"] = {"mode": rng.choice(["fresh", "continue"]), "hyd": h1, "report": rng.choice([h1, 2 * h1, "ALL"]),
+                             "duration": h1 * rng.randint(1, 2)}
+        if spec["c16_reuse"]["mode"] == "continue":
+            o["duration"] = max(o["duration"], spec["c16_reuse"]["duration"] + 2 * hyd)
+    elif not odd_options and o["duration"] >= hyd and rng.random() < 0.3:
         # a continued run; `c16_restart == duration` = the model was already simulated to the end (run_sim must be a no-op)
         spec["c16_restart"] = hyd * rng.randint(1, o["duration"] // hyd) if rng.random() < 0.8 else o["duration"]
     return spec
@@ -302,7 +309,21 @@ def observe_run(spec, plan=None, backup=None, conv_err=False, max_calls=None, ke
 
     plan = {int(k): v for k, v in (plan or {}).items()}
     wn = build(wntr, spec)
-    if spec.get("c16_restart") is not None:
+    sim = None
+    if spec.get("c16_reuse") is not None:
+        # ONE simulator object, two run_sim calls, the time options edited through the setters in between:
+        # leg 1 (unobserved) with other hydraulic / report steps, then either reset_initial_values() (a fresh run) or a continuation
+        ru = spec["c16_reuse"]
+        full = (wn.options.time.hydraulic_timestep, wn.options.time.report_timestep, wn.options.time.duration)
+        wn.options.time.hydraulic_timestep, wn.options.time.report_timestep, wn.options.time.duration = ru["hyd"], ru["report"], ru["duration"]
+        sim = wntr.sim.WNTRSimulator(wn)
+        with warnings.catch_warnings(), _quiet_fds():
+            warnings.simplefilter("ignore")
+            sim.run_sim()
+        wn.options.time.hydraulic_timestep, wn.options.time.report_timestep, wn.options.time.duration = full
+        if ru["mode"] == "fresh":
+            wn.reset_initial_values()
+    elif spec.get("c16_restart") is not None:
         # a continued simulation: an unobserved first leg up to `c16_restart`, then the observed run to the full duration
         full = wn.options.time.duration
         wn.options.time.duration = spec["c16_restart"]
@@ -310,7 +331,8 @@ def observe_run(spec, plan=None, backup=None, conv_err=False, max_calls=None, ke
             warnings.simplefilter("ignore")
             wntr.sim.WNTRSimulator(wn).run_sim()
         wn.options.time.duration = full
-    sim = wntr.sim.WNTRSimulator(wn)
+    if sim is None:
+        sim = wntr.sim.WNTRSimulator(wn)
     obs = {"outs": [], "pres": [], "posts": [], "rows": [], "save_times": [], "kinds_hit": [],
            "t0": (wn.sim_time, wn._prev_sim_time)}
     orig_helper = core._solver_helper
@@ -489,8 +511,16 @@ def observe_run(spec, plan=None, backup=None, conv_err=False, max_calls=None, ke
             spla.spsolve = orig_spsolve
     obs["warnings"] = [str(w.message) for w in ws]
     obs["exc"] = exc
-    obs["hyd"] = sim._hydraulic_timestep
-    obs["report"] = sim._report_timestep
+    # the steps the run must use are a function of the CURRENT options only (`_setup_sim_options`: report < hyd -> hyd := report;
+    # report not a multiple -> report floored to one); what the simulator object carries is compared with that by the oracle
+    oh, orep = wn.options.time.hydraulic_timestep, wn.options.time.report_timestep
+    if not isinstance(orep, str):
+        if orep < oh:
+            oh = orep
+        elif orep % oh != 0:
+            orep = orep - orep % oh
+    obs["hyd"], obs["report"] = oh, orep
+    obs["sim_steps"] = (sim._hydraulic_timestep, sim._report_timestep)
     obs["duration"] = wn.options.time.duration
     obs["report_start"] = wn.options.time.report_start
     obs["trials"] = wn.options.hydraulic.trials
@@ -804,7 +834,26 @@ def clamp_shape_from_source(path):
     return {"minuend": qty[a], "subtrahend": qty[b] if b else "zero", "lowerZero": lower_zero, "minusOne": minus_one}
 
 
-def gen_shape_lean(fields, body, clamp):
+def setup_reads_options_only(path):
+    """`_setup_sim_options` must take the two timesteps from the CURRENT options on every call: the two assignments
+    `self._report_timestep = self._wn.options.time.report_timestep`, `self._hydraulic_timestep = self._wn.options.time.hydraulic_timestep`
+    are top-level statements of the method (not under a guard that reads simulator state, not in a helper called conditionally)"""
+    import ast
+
+    tree = ast.parse(open(path).read())
+    fn = None
+    for node in ast.walk(tree):
+        if isinstance(node, ast.FunctionDef) and node.name == "_setup_sim_options":
+            fn = node
+    if fn is None:
+        raise vlib.BrokenTie("_setup_sim_options not found")
+    top = [ast.dump(st) for st in fn.body]
+    want = [_canon("self._report_timestep = self._wn.options.time.report_timestep", "exec"),
+            _canon("self._hydraulic_timestep = self._wn.options.time.hydraulic_timestep", "exec")]
+    return all(w in top for w in want)
+
+
+def gen_shape_lean(fields, body, clamp, steps_from_options=True):
     b = lambda x: "true" if x else "false"
     return "\n".join([
         "-- GENERATED by harness/props/c16.py from wntr/sim/core.py (Python ast of WNTRSimulator.run_sim). Do not edit.",
@@ -823,6 +872,9 @@ def gen_shape_lean(fields, body, clamp):
         "def clampShape : ClampShape :=",
         "  { minuend := .%s, subtrahend := .%s, lowerZero := %s, minusOne := %s }"
         % (clamp["minuend"], clamp["subtrahend"], b(clamp["lowerZero"]), b(clamp["minusOne"])),
+        "",
+        "/-- `_setup_sim_options` assigns `_report_timestep` / `_hydraulic_timestep` from `wn.options.time` unconditionally, on every call -/",
+        "def stepsFromOptionsEveryCall : Bool := %s" % b(steps_from_options),
         "",
         "end Wntr.RunLoop.Gen",
         "",
@@ -1144,6 +1196,10 @@ def judge(case, obs, ref):
                  "a TankLevelCondition reported a backtrack >= the step (presolve moved the clock from %s back to %s <= prev %s) and run_sim "
                  "raised 'Simulation already solved this timestep' although no step failed"
                  % next((p[0], p[3], p[1]) for p in obs["pres"] if not p[2] and not (p[1] < p[3])))]
+    if obs.get("sim_steps") is not None and obs["exc"] is None and tuple(obs["sim_steps"]) != (obs["hyd"], obs["report"]):
+        out.append(("steps-not-from-current-options",
+                    "run_sim used hydraulic/report steps %s although the model's current options give %s (a simulator object that was used before)"
+                    % (obs["sim_steps"], (obs["hyd"], obs["report"]))))
     # a "solver failure" whose message is a Python calling error is not a verdict of the solver: the step was never attempted
     texts = list(obs["warnings"]) + ([obs["exc"][1]] if obs["exc"] else [])
     for tx in texts:
@@ -1433,7 +1489,8 @@ class C16(Check):
         fields, body = shape_from_source(os.path.join(vlib.REPO, "wntr", "sim", "core.py"))
         ctx.cov["shape_statements"] = body.count(".act") + body.count(".ite") + body.count(".raise") + body.count(".brk") + body.count(".cont")
         clamp = clamp_shape_from_source(os.path.join(vlib.REPO, "wntr", "sim", "core.py"))
-        vlib.write_if_changed(os.path.join(vlib.GEN, "RunLoopShape.lean"), gen_shape_lean(fields, body, clamp))
+        vlib.write_if_changed(os.path.join(vlib.GEN, "RunLoopShape.lean"),
+                              gen_shape_lean(fields, body, clamp, setup_reads_options_only(os.path.join(vlib.REPO, "wntr", "sim", "core.py"))))
         defaults, nbody = newton_shape_from_source(os.path.join(vlib.REPO, "wntr", "sim", "solvers.py"))
         hshape = helper_shape_from_source(os.path.join(vlib.REPO, "wntr", "sim", "core.py"))
         vlib.write_if_changed(os.path.join(vlib.GEN, "NewtonShape.lean"), gen_newton_lean(defaults, nbody, hshape))
@@ -1526,7 +1583,7 @@ class C16(Check):
                 verdicts = judge(case, obs, ref)
                 sig = (json.dumps(gen_networks.spec_signature(spec), default=str), json.dumps(spec.get("c16_controls", []), sort_keys=True),
                        json.dumps(sorted(case["plan"].items())), case["backup"], case["conv_err"],
-                       spec.get("c16_report_start"), spec.get("c16_restart"))
+                       spec.get("c16_report_start"), spec.get("c16_restart"), json.dumps(spec.get("c16_reuse"), sort_keys=True))
                 partial = any(p[3] != p[0] for p in obs["pres"])
                 resolves = any(obs["posts"])
                 nontriv = len(obs["outs"]) >= 2 and (bool(obs["kinds_hit"]) or partial or resolves)
@@ -1548,6 +1605,8 @@ class C16(Check):
                     ctx.count("runs_with_partial_step")
                 if resolves:
                     ctx.count("runs_with_resolve")
+                if spec.get("c16_reuse") is not None:
+                    ctx.count("same_simulator_two_runs:" + spec["c16_reuse"]["mode"])
                 if spec.get("c16_restart") is not None:
                     ctx.count("continued_runs")
                     if obs["t0"][0] > obs["duration"]:
